@@ -74,6 +74,24 @@ def run(v, tier, seed, g):
             cases = cases + [c for c in corpus.PINNED if "inner(" in c["code"] and "options" not in c["code"]][:12]
         res = valprops.run_oracle(cases, seed, entity_mode="random", options_override={"scalar_type": st})
         stats[st] = valprops.account(v, res, f"c09:{st}", what=f"{st} kernel differs from the form evaluated in {'complex' if 'complex' in st else 'real'} arithmetic (test function conjugated)")
+    # single and double precision run the SAME program: the exported ASTs are identical (only the C types differ)
+    asts = {}
+    base_cases = FORMS + COMPLEX_ONLY
+    for st in ("float32", "float64", "complex64", "complex128"):
+        asts[st] = common.run_cases([dict(c, code=c["code"] + f'options={{"scalar_type":"{st}"}}\n') for c in base_cases])
+    same_ast = 0
+    for i, c in enumerate(base_cases):
+        for lo, hi in (("float32", "float64"), ("complex64", "complex128")):
+            a, b = asts[lo][i], asts[hi][i]
+            if a["status"] != "ok" and b["status"] != "ok":
+                continue
+            ok = a["status"] == b["status"] and [k.get("body") for k in a["kernels"]] == [k.get("body") for k in b["kernels"]]
+            v.oblige(ok)
+            same_ast += 1 if ok else 0
+            if not ok:
+                v.violation(f"c09-precision-ast:{c['id']}", f"the kernels generated for {lo} and {hi} are different programs (case {c['id']}): precision must only change the C types",
+                            {"case": c["id"], "code": c["code"], "types": [lo, hi], "status": [a["status"], b["status"]]})
+    stats["same_program_across_precisions"] = same_ast
     # complex operands of functions without a complex implementation must be rejected, not silently truncated
     rej = common.run_cases([dict(c, code=c["code"] + 'options={"scalar_type":"complex128"}\n') for c in MUST_REJECT], want_text=True)
     for r in rej:
@@ -92,11 +110,11 @@ def run(v, tier, seed, g):
                         {"case": r["id"], "code": r["code"]})
     if not g["ok"] and not v.violations:
         v.violation("gate", "proof obligations no longer check: " + "; ".join(g["broken"]), {"broken": g["broken"]}, no_input=True)
-    tot = sum(s["agree"] + s["mismatch"] for s in stats.values())
+    tot = sum(s["agree"] + s["mismatch"] for s in stats.values() if isinstance(s, dict))
     cov = {"checker_cmd": f"./check C09 --tier {tier}", "trusted_base": valprops.ORACLE_TRUST + ["Coq kernel + VM (finite theorem over the regenerated math tables)", "tr_math.py",
                                                                                                  "libm / <complex.h> as provided by glibc; bessel/erf values taken from libm on both sides is NOT done: the oracle uses Python's math/cmath"],
-           "programs": sum(s["cases"] for s in stats.values()), "disagreements_checked": tot, "evaluations": tot,
-           "distinct_nontrivial": sum(s["distinct"] for s in stats.values()), "oracle_by_scalar_type": stats,
+           "programs": sum(s["cases"] for s in stats.values() if isinstance(s, dict)), "disagreements_checked": tot, "evaluations": tot,
+           "distinct_nontrivial": sum(s["distinct"] for s in stats.values() if isinstance(s, dict)), "oracle_by_scalar_type": stats,
            "rule": "each form compiled for float32/float64/complex64/complex128 and compared with the oracle on data of that type (complex data for complex kernels)",
            "axioms_under_property_theorems": g.get("axioms", [])}
     return v.finish("proof", cov, ["forms sampled; proved: the math-function table selects a function existing for the operand type for every (operator, scalar type)"])
